@@ -66,6 +66,22 @@ def run(res: C.Result):
         p.update(criteria="shipped", vetoes=[], steps=8 if quick else 14, calc="caching", max_attempts=2, fixed=[], T=3000.0, mu=p.get("mu", -0.1))
         p["exchange"] = {"symbols": ["H"], "positions": [[0.0, 0.0, 0.0]]}
         cases.append({"program": p, "workdir": str(res.workdir)})
+    # tables in which one move object sits under two names / inside a composite and stand-alone (the live run shares it, a rebuilt one does not),
+    # and runs whose temperature is re-tuned on the way (what a long-lived criteria or move remembers must not matter)
+    r8 = random.Random(res.seed ^ 0xA11A5)
+    for k in range(8 if quick else 80):
+        p = progs.gen_program(r8, k, ensembles=("gc",), alias=True, multi_insert=True)
+        p.update(criteria="shipped", vetoes=[], steps=8 if quick else 12, calc="caching", max_attempts=2, fixed=[], T=3000.0)
+        if k % 2:
+            p["retune"] = {"step": r8.randint(1, 3), "T": r8.choice([1000.0, 6000.0])}
+            # a chemical potential at which insertions and deletions are both accepted now and then: V exp(mu/kT) / Lambda^3 ~ N
+            import math
+            m_ = sum({"H": 1.008, "O": 15.999, "Ar": 39.948}[x] for x in p["exchange"]["symbols"])
+            lam3 = (17.458 / math.sqrt(m_ * 3000.0)) ** 3
+            p["mu"] = round(8.617333e-5 * 3000.0 * math.log(max(p.get("N0", 1), 1) * lam3 / 300.0), 3)
+            p["steps"] = 10 if quick else 14
+            p["max_cycles"] = 3
+        cases.append({"program": p, "workdir": str(res.workdir)})
     for drv in ("fbmc", "afbmc"):
         cases.append({"driver": drv, "seed": 5, "program": {"steps": 3}, "workdir": str(res.workdir)})
     res.workdir.mkdir(parents=True, exist_ok=True)
